@@ -537,11 +537,11 @@ def run_check(pid, tier, seed):
                 if not pending:
                     break
                 time.sleep(0.2)
-                if time.time() > deadline + max(300.0, cap):
+                if time.time() > deadline + max(600.0, 2 * cap):
                     # every shard checks the deadline between two cases; one that is this late is stuck inside a single case
                     for i in list(pending):
                         errors.append('shard %d did not finish %d s after the time cap (stuck in one case)%s'
-                                      % (i, int(max(300.0, cap)), _last_case(pid, i)))
+                                      % (i, int(max(600.0, 2 * cap)), _last_case(pid, i)))
                         pending.pop(i)
                     break
                 if hang:
